@@ -28,6 +28,9 @@ def _subst(e, fn):
             out[k] = [_subst(a, fn) for a in e[k]]
     if isinstance(e.get('fields'), dict) and e.get('k') == 'init':
         out['fields'] = {k: _subst(v, fn) for k, v in e['fields'].items()}
+    if out.get('k') == 'bittest' and isinstance(out.get('bitexpr'), dict) and out['bitexpr'].get('k') == 'enum' and not out.get('bit'):
+        out['bit'] = out['bitexpr']['name']
+        out.pop('bitexpr')
     r = fn(out)
     return out if r is None else r
 
@@ -42,6 +45,10 @@ def _map_event(ev, fn):
             out[k] = _subst(ev[k], fn)
     if isinstance(ev.get('args'), list):
         out['args'] = [_subst(a, fn) for a in ev['args']]
+    # a bit operation whose bit was a parameter and is now an enumerator is the named-bit form
+    if out.get('k') in ('bitset', 'bitclear') and isinstance(out.get('bitexpr'), dict) and out['bitexpr'].get('k') == 'enum' and not out.get('bit'):
+        out['bit'] = out['bitexpr']['name']
+        out.pop('bitexpr')
     return out
 
 
